@@ -2,6 +2,7 @@ package x509eng
 
 import (
 	"bytes"
+	"crypto"
 	"crypto/md5"
 	"crypto/sha1"
 	"crypto/sha256"
@@ -26,7 +27,8 @@ func init() {
 			"with Go's standard library / math/big), ValidityPeriod against NotAfter-NotBefore; CT leg: families = one TBS with the CT poison and/or an SCT list (0-2 SCTs) inserted at every position " +
 			"of the extension list, all FingerprintNoCT equal and different from the serial+1 control; non-trivial = accepted certificate on which every applicable field was compared, or a CT family " +
 			"with >= 3 accepted members; name leg: certificates whose issuer and subject are equal as printed but different as bytes (string type, RDN grouping, order inside a SET, case, " +
-			"whitespace), with different-name and equal-bytes controls, each signed by its own key and by another key; distinct by hash of the DER bytes / of the family base",
+			"whitespace), with different-name and equal-bytes controls, each signed by its own key and by another key; PSS leg: self-issued RSA-PSS certificates (SHA-256/384/512) signed " +
+			"correctly, with salt lengths 0 / 20 / hash-1 / hash+1 / maximum, with PKCS#1 v1.5 under a PSS identifier and vice versa, and with an MGF1 hash different from the message hash; distinct by hash of the DER bytes / of the family base",
 		MinNontrivial:         8000,
 		MinNontrivialThorough: 250000,
 		Shards:                16,
@@ -393,6 +395,26 @@ func runC06(c *core.Ctx) {
 			c.Nontrivial(raw)
 		}
 	}
+	// RSA-PSS leg: self-issued certificates signed correctly and with every near miss of the declared parameters
+	gp := &gen{r: c.SubRng("pss")}
+	np := c.PerShard(c.Pick(1600, 50000))
+	for i := 0; i < np; i++ {
+		raw, desc := gp.pssSelfIssuedCert()
+		cert, mode, ok := parseEither(c, raw)
+		c.Count("pss_leg_generated", 1)
+		if !ok {
+			c.Count("pss_leg_rejected", 1)
+			continue
+		}
+		c.Eval(1)
+		c.Count("pss_leg:"+desc[:strings.IndexByte(desc, ' ')], 1)
+		if cert.SelfSigned {
+			c.Count("pss_leg_self_signed_flag_set", 1)
+		}
+		if c06Check(c, cert, raw, mode, desc, fmt.Sprintf("pss-s%d-%d", c.Shard, i)) {
+			c.Nontrivial(raw)
+		}
+	}
 	// CT leg
 	g := &gen{r: c.SubRng("ct")}
 	nf := c.PerShard(c.Pick(600, 16000))
@@ -499,4 +521,77 @@ func (g *gen) nameVariantCert() ([]byte, string) {
 		p.Exts = []*der.Node{extension([]int{2, 5, 29, 19}, true, der.Seq(der.Bool(true)))}
 	}
 	return p.assemble(), kind + " signed-by:" + signedBy + " key:" + own.name
+}
+
+// pssSelfIssuedCert builds a self-issued certificate (issuer bytes == subject bytes) with an RSA pool key whose
+// signature relates to the declared RSA-PSS parameters in a chosen way.
+func (g *gen) pssSelfIssuedCert() ([]byte, string) {
+	_, fast := signers()
+	h := []crypto.Hash{crypto.SHA256, crypto.SHA384, crypto.SHA512}[g.n(3)]
+	var sg *signer
+	for {
+		sg = fast[g.n(len(fast))]
+		if sg.kind == "rsa" && (sg.rsa.N.BitLen()+6)/8 >= 2*h.Size()+3 {
+			break
+		}
+	}
+	key := sg.rsa
+	emBits := key.N.BitLen() - 1
+	emLen := (emBits + 7) / 8
+	name := g.name()
+	nb, na := g.genTime(), g.genTime()
+	if na.Before(nb) {
+		nb, na = na, nb
+	}
+	p := &certParts{Version: 2, Serial: new(big.Int).SetBytes(append([]byte{1}, g.bytes(8)...)), Issuer: name, Subject: name.Clone(),
+		NotBefore: der.Time(nb), NotAfter: der.Time(na), SPKI: sg.spki()}
+	p.SigAlg = der.Seq(der.OID(oidRSAPSS...), pssParams(h))
+	pssSign := func(saltLen int) func(tbs []byte) []byte {
+		salt := g.bytes(saltLen)
+		return func(tbs []byte) []byte {
+			em := emsaPSS(h, hashOf(h, tbs), salt, emBits)
+			if em == nil {
+				return g.bytes((key.N.BitLen() + 7) / 8)
+			}
+			return rsaPrivOp(key, em)
+		}
+	}
+	v15Sign := func(tbs []byte) []byte {
+		return rsaPrivOp(key, emsaPKCS1v15(h, hashOf(h, tbs), (key.N.BitLen()+7)/8))
+	}
+	kind := ""
+	switch g.n(10) {
+	case 0, 1, 2:
+		kind, p.signFn = "correct", pssSign(h.Size())
+	case 3:
+		kind, p.signFn = "salt-0", pssSign(0)
+	case 4:
+		kind, p.signFn = "salt-20", pssSign(20)
+	case 5:
+		kind, p.signFn = "salt-hash-1", pssSign(h.Size()-1)
+	case 6:
+		kind, p.signFn = "salt-hash+1", pssSign(h.Size()+1)
+	case 7:
+		kind, p.signFn = "salt-max", pssSign(emLen-h.Size()-2)
+	case 8:
+		if g.chance(50) {
+			kind, p.signFn = "pkcs1v15-under-pss-identifier", v15Sign
+		} else {
+			kind, p.signFn = "pss-under-pkcs1v15-identifier", pssSign(h.Size())
+			p.SigAlg = der.Seq(der.OID(map[crypto.Hash][]int{crypto.SHA256: oidSHA256RSA, crypto.SHA384: oidSHA384RSA, crypto.SHA512: oidSHA512RSA}[h]...), der.Null())
+		}
+	default: // MGF1 hash different from the message hash in the parameters (signature made with the message hash)
+		kind, p.signFn = "mgf1-hash-differs", pssSign(h.Size())
+		other := crypto.SHA256
+		if h == crypto.SHA256 {
+			other = crypto.SHA384
+		}
+		params := pssParams(h)
+		params.Children[1] = der.Explicit(1, der.Seq(der.OID(oidMGF1...), der.Seq(der.OID(hashOID(other)...), der.Null())))
+		p.SigAlg = der.Seq(der.OID(oidRSAPSS...), params)
+	}
+	if g.chance(50) {
+		p.Exts = []*der.Node{extension([]int{2, 5, 29, 19}, true, der.Seq(der.Bool(true)))}
+	}
+	return p.assemble(), kind + " hash:" + itoa(h.Size()*8) + " key:" + sg.name
 }
